@@ -10,10 +10,11 @@ namespace DymVerif.Incent
 open DymVerif Coins
 
 /-- every stored epoch pointer is resumable w.r.t. the iterated list -/
-def PtrsOK (data : List SView) (ps : List Pointer) : Prop := ∀ e, PtrOK data (ps.getD e Pointer.last)
-def PtrsOKe (data : List SView) (ps : List Pointer) : Prop := ∀ e, PtrOKe data e (ps.getD e Pointer.last)
+def PtrsOK (E : Nat → Prop) (data : List SView) (ps : List Pointer) : Prop := ∀ e, E e → PtrOK data (ps.getD e Pointer.last)
+/-- … of the epoch identifiers in `E` (all three for the EndBlock, the ending one for the epoch-end flush) -/
+def PtrsOKe (E : Nat → Prop) (data : List SView) (ps : List Pointer) : Prop := ∀ e, E e → PtrOKe data e (ps.getD e Pointer.last)
 
-theorem PtrsOKe.ok {data : List SView} {ps : List Pointer} (h : PtrsOKe data ps) : PtrsOK data ps := fun e => (h e).ok
+theorem PtrsOKe.ok {E : Nat → Prop} {data : List SView} {ps : List Pointer} (h : PtrsOKe E data ps) : PtrsOK E data ps := fun e he => (h e he).ok
 
 theorem getD_set_cases (ps : List Pointer) (e e' : Nat) (p' : Pointer) :
     ((ps.set e p').getD e' Pointer.last = p' ∧ e = e') ∨ (ps.set e p').getD e' Pointer.last = ps.getD e' Pointer.last := by
@@ -29,8 +30,8 @@ theorem getD_set_cases (ps : List Pointer) (e e' : Nat) (p' : Pointer) :
     rw [List.getElem?_set_ne he]
 
 /-- the pointer loop only stores pointers it can resume from -/
-theorem ptrLoop_ptrsOKe (s : State) (maxOps : Nat) : ∀ (es : List Nat) (total : Nat) (c : Caches) (ps : List Pointer), GoodCache c →
-    PtrsOKe (c.streams.map Stream.view) ps → PtrsOKe (c.streams.map Stream.view) (ptrLoop s maxOps es total c ps).2.2 := by
+theorem ptrLoop_ptrsOKe (E : Nat → Prop) (s : State) (maxOps : Nat) : ∀ (es : List Nat) (total : Nat) (c : Caches) (ps : List Pointer), GoodCache c →
+    PtrsOKe E (c.streams.map Stream.view) ps → PtrsOKe E (c.streams.map Stream.view) (ptrLoop s maxOps es total c ps).2.2 := by
   intro es
   induction es with
   | nil => intro total c ps _ h; exact h
@@ -47,12 +48,12 @@ theorem ptrLoop_ptrsOKe (s : State) (maxOps : Nat) : ∀ (es : List Nat) (total 
       rw [hit] at g1 hpt ⊢
       simp only at g1 hpt ⊢
       have hv := view_of_grown g1
-      have hp' : PtrsOKe (c'.streams.map Stream.view) (ps.set e p') := by
-        intro e'
+      have hp' : PtrsOKe E (c'.streams.map Stream.view) (ps.set e p') := by
+        intro e' hE
         rw [hv]
         rcases getD_set_cases ps e e' p' with ⟨h, he⟩ | h
         · rw [h, hpt, ← he]; exact ptrOKe_ptrOf _ e hgc.sortedData _
-        · rw [h]; exact hp e'
+        · rw [h]; exact hp e' hE
       have := ih (total + iters) c' (ps.set e p') (hgc.of_grown g1) hp'
       rw [hv] at this
       exact this
@@ -67,19 +68,21 @@ theorem Qv_eq_QR (c : Caches) (ps : List Pointer) (hgc : GoodCache c) (k : Nat) 
 /-- **the pointer loop, every budget, in terms of the STORED pointers**: distributed + pending after the stream's own
     epoch pointer is the same before and after (equality version of `ptrLoop_window`) -/
 theorem ptrLoop_exact_id (s : State) (maxOps : Nat) (es : List Nat) (total : Nat) (c : Caches) (ps : List Pointer) (hgc : GoodCache c)
-    (hlive : LiveC s c) (hp : PtrsOK (c.streams.map Stream.view) ps) :
+    (hlive : LiveC s c) (E : Nat → Prop) (hE : ∀ st ∈ c.streams, E st.epochId) (hp : PtrsOK E (c.streams.map Stream.view) ps) :
     Grown c (ptrLoop s maxOps es total c ps).2.1 ∧
     ∀ k, k < c.streams.length → ∀ i, Qv (ptrLoop s maxOps es total c ps).2.1 (ptrLoop s maxOps es total c ps).2.2 k i = Qv c ps k i := by
   obtain ⟨g1, g2⟩ := ptrLoop_exact s maxOps es total c ps hgc hlive
   refine ⟨g1, ?_⟩
   intro k hk i
   have hk' : k < (ptrLoop s maxOps es total c ps).2.1.streams.length := by rw [g1.1]; exact hk
-  rw [Qv_eq_QR c ps hgc k hk (hp _) i, ← g2 k hk i]
+  have hEk : E (slot c k).epochId := by rw [slot_eq c k hk]; exact hE _ (List.getElem_mem hk)
+  rw [Qv_eq_QR c ps hgc k hk (hp _ hEk) i, ← g2 k hk i]
   apply Qv_eq_QR _ _ (hgc.of_grown g1) k hk'
   rw [view_of_grown g1]
+  have hEk' : E (slot (ptrLoop s maxOps es total c ps).2.1 k).epochId := by rw [slot_static g1 k hk]; exact hEk
   -- the pointers the loop stores are resumable (or untouched)
-  have : ∀ (es : List Nat) (total : Nat) (c : Caches) (ps : List Pointer), GoodCache c → PtrsOK (c.streams.map Stream.view) ps →
-      PtrsOK (c.streams.map Stream.view) (ptrLoop s maxOps es total c ps).2.2 := by
+  have : ∀ (es : List Nat) (total : Nat) (c : Caches) (ps : List Pointer), GoodCache c → PtrsOK E (c.streams.map Stream.view) ps →
+      PtrsOK E (c.streams.map Stream.view) (ptrLoop s maxOps es total c ps).2.2 := by
     intro es
     induction es with
     | nil => intro total c ps _ h; exact h
@@ -96,16 +99,16 @@ theorem ptrLoop_exact_id (s : State) (maxOps : Nat) (es : List Nat) (total : Nat
         rw [hit] at g1 hpt ⊢
         simp only at g1 hpt ⊢
         have hv := view_of_grown g1
-        have hp' : PtrsOK (c'.streams.map Stream.view) (ps.set e p') := by
-          intro e'
+        have hp' : PtrsOK E (c'.streams.map Stream.view) (ps.set e p') := by
+          intro e' hE'
           rw [hv]
           rcases getD_set_cases ps e e' p' with ⟨h, _⟩ | h
           · rw [h, hpt]; exact ptrOK_ptrOf _ e hgc.sortedData _
-          · rw [h]; exact hp e'
+          · rw [h]; exact hp e' hE'
         have := ih (total + iters) c' (ps.set e p') (hgc.of_grown g1) hp'
         rw [hv] at this
         exact this
-  exact this es total c ps hgc hp _
+  exact this es total c ps hgc hp _ hEk'
 
 /-- the weight the callback reports for an item: the number of qualifying locks of the gauge (or 1) -/
 theorem rewardsCb_weight_le (s : State) (c : Caches) (v : SView) (r : Rec) : (rewardsCb s c v r).2 ≤ s.locks.length + 1 := by
@@ -154,14 +157,14 @@ theorem ptrLoop_flush_done (s : State) (e : Nat) (c : Caches) (ps : List Pointer
 /-- what `strDistribute_core_eq` establishes: the values written are the cached ones, every stream handed in is
     cached, each cached value is the stored stream with `distributed + pending` unchanged, the stored pointers are
     resumable, the epoch-end pass leaves nothing to visit, the active list loses exactly the finished streams -/
-def CoreEq (s : State) (es : List Nat) (streams : List Stream) (maxOps : Nat) (ee : Bool) (s' : State) : Prop :=
+def CoreEq (E : Nat → Prop) (s : State) (es : List Nat) (streams : List Stream) (maxOps : Nat) (ee : Bool) (s' : State) : Prop :=
   ∃ c : Caches,
     (∀ v ∈ c.streams, getS s'.streams v.id = some (finVal ee v)) ∧
     (∀ x ∈ streams.map (·.id), ∃ v ∈ c.streams, v.id = x) ∧
     (∀ v ∈ c.streams, ∃ st0, getS s.streams v.id = some st0 ∧ v = { st0 with distributed := v.distributed } ∧
         ∀ i, amt v.distributed i + pendId (s'.ptrs.getD v.epochId Pointer.last) v i
               = amt st0.distributed i + pendId (s.ptrs.getD st0.epochId Pointer.last) st0 i) ∧
-    PtrsOKe ((sortById streams).map Stream.view) s'.ptrs ∧
+    PtrsOKe E ((sortById streams).map Stream.view) s'.ptrs ∧
     (∀ e, e ≤ 2 → es = [e] → maxOps = maxU64 → (s.locks.length + 1) * totalRecs ((sortById streams).map Stream.view) < maxU64 →
       remaining ((sortById streams).map Stream.view) e (s'.ptrs.getD e Pointer.last) = []) ∧
     (∀ x, x ∈ s'.active.ids ↔ x ∈ s.active.ids ∧ ∀ v ∈ c.streams, v.id = x → ¬ gone ee v) ∧
@@ -171,8 +174,9 @@ theorem strDistribute_core_eq (s : State) (es : List Nat) (streams : List Stream
     (hg : GInv s) (hs : SStruct s) (hin : GoodInput s streams)
     (hst : ∀ st ∈ streams, StrictInc (st.recs.map (·.gauge)) ∧ st.id < maxU64)
     (hlive : ∀ st ∈ streams, ∀ r ∈ st.recs, LiveRec s r)
-    (hptr : PtrsOKe ((sortById streams).map Stream.view) s.ptrs)
-    (h : strDistribute s es streams maxOps ee = .ok s') : CoreEq s es streams maxOps ee s' := by
+    (E : Nat → Prop) (hE : ∀ st ∈ streams, E st.epochId)
+    (hptr : PtrsOKe E ((sortById streams).map Stream.view) s.ptrs)
+    (h : strDistribute s es streams maxOps ee = .ok s') : CoreEq E s es streams maxOps ee s' := by
   have hin0 := hin
   have hin := sortById_good s streams hin
   unfold strDistribute at h
@@ -191,8 +195,9 @@ theorem strDistribute_core_eq (s : State) (es : List Nat) (streams : List Stream
         obtain ⟨st, hst, he⟩ := List.mem_map.1 hx
         rw [← he]; unfold sExtra storedDist; rw [(hin.2 st hst).1]; simp⟩, rfl⟩
   have hlive0 : LiveC s ⟨sortById streams, [], []⟩ := fun st hm r hr => hlive st ((mem_sortById streams st).1 hm) r hr
-  have hwin := ptrLoop_exact_id s maxOps (sortByDuration es) 0 ⟨sortById streams, [], []⟩ s.ptrs hgc0 hlive0 hptr.ok
-  have hpk := ptrLoop_ptrsOKe s maxOps (sortByDuration es) 0 ⟨sortById streams, [], []⟩ s.ptrs hgc0 hptr
+  have hwin := ptrLoop_exact_id s maxOps (sortByDuration es) 0 ⟨sortById streams, [], []⟩ s.ptrs hgc0 hlive0 E
+    (fun st hm => hE st ((mem_sortById streams st).1 hm)) hptr.ok
+  have hpk := ptrLoop_ptrsOKe E s maxOps (sortByDuration es) 0 ⟨sortById streams, [], []⟩ s.ptrs hgc0 hptr
   have hfl : ∀ e, e ≤ 2 → es = [e] → maxOps = maxU64 → (s.locks.length + 1) * totalRecs ((sortById streams).map Stream.view) < maxU64 →
       remaining ((sortById streams).map Stream.view) e
         ((ptrLoop s maxOps (sortByDuration es) 0 ⟨sortById streams, [], []⟩ s.ptrs).2.2.getD e Pointer.last) = [] := by
@@ -217,7 +222,7 @@ theorem strDistribute_core_eq (s : State) (es : List Nat) (streams : List Stream
     · intro hm; obtain ⟨y, hy, he⟩ := List.mem_map.1 hm; rw [← he]; exact List.mem_map_of_mem (f := (·.id)) ((mem_sortById streams y).1 hy)
     · intro hm; obtain ⟨y, hy, he⟩ := List.mem_map.1 hm; rw [← he]; exact List.mem_map_of_mem (f := (·.id)) ((mem_sortById streams y).2 hy)
   have key : ∀ b : Bank, (∀ i, amt (b.get incAddr) i = amt (s.bank.get incAddr) i + amt c.distributed i) →
-      ∀ s2, incDistribute { s with ptrs := ps, bank := b } c.gauges ee = .ok s2 → saveStreams ee c.streams s2 = .ok s' → CoreEq s es streams maxOps ee s' := by
+      ∀ s2, incDistribute { s with ptrs := ps, bank := b } c.gauges ee = .ok s2 → saveStreams ee c.streams s2 = .ok s' → CoreEq E s es streams maxOps ee s' := by
     intro b hb1 s2 hinc hsave
     obtain ⟨_, _, r3, _, _, _, _⟩ := incDistribute_spec { s with ptrs := ps, bank := b } c.gauges ee s2
       hg.ids hg.bounded ci1 ci2
